@@ -2,7 +2,6 @@ package main
 
 import (
 	"fmt"
-	"go/ast"
 	"go/token"
 	"go/types"
 	"regexp"
@@ -39,33 +38,8 @@ func runC08(c *Ctx) {
 
 	// ---- eexec writer: encryption shape, decided through Write/Close on the evaluator (ext_b.go)
 	c.cipherWriterB()
-	// ---- lead bytes of the eexec stream
-	{
-		fd := c.funcDecl("type1", "", "newEExecWriter")
-		fname := "type1.newEExecWriter"
-		var iv *ast.CompositeLit
-		ast.Inspect(fd.Body, func(n ast.Node) bool {
-			if cl, ok := n.(*ast.CompositeLit); ok {
-				if t := info.TypeOf(cl); t != nil && t.String() == "[]byte" {
-					iv = cl
-				}
-			}
-			return true
-		})
-		okIV := false
-		detail := ""
-		if iv != nil && len(iv.Elts) == 4 {
-			if v0, ok := constIntOf(info, iv.Elts[0]); ok {
-				first := (v0 ^ (55665 >> 8)) & 0xff
-				detail = fmt.Sprintf("first cipher byte %#02x", first)
-				okIV = first > 32 && !isHexDigit(int(first))
-			}
-		}
-		c.check(okIV, "W-LEADBYTES", fname, "four lead bytes; the first cipher byte is neither white space nor a hexadecimal digit", fd.Pos(), detail, "the eexec lead bytes are wrong ("+detail+"): a reader would take a binary section for hexadecimal, or skip its first byte as white space")
-		// initial state R0
-		txt := nodeString(c, fd.Body)
-		c.check(strings.Contains(txt, "eexecR0"), "W-LEADBYTES", fname, "cipher state starts at 55665", fd.Pos(), "R: eexecR0", "the eexec writer does not start from the key 55665")
-	}
+	// ---- lead bytes of the eexec stream: constructor + Close evaluated (ext_x9.go)
+	c.leadBytesX9()
 	// ---- charstring obfuscation: key and shape decided on the evaluator (ext_b.go)
 	c.cipherObfuscateB()
 	// ---- lead-byte search in encodeCharstrings
@@ -191,6 +165,10 @@ func (c *Ctx) pfbFraming(info *types.Info) {
 	ev.load = func(ld *ssa.UnOp, addr sv) (sv, bool) {
 		if strings.HasSuffix(addr.s, ".Format") {
 			return intV(pfb), true
+		}
+		// a table of the package that only ever holds its initialiser (segment kinds, section names)
+		if v, ok := c.constTableValueX9(ev, ld, addr); ok {
+			return v, true
 		}
 		if strings.HasPrefix(addr.s, "global:") {
 			return sv{k: svAddr, s: addr.s[strings.LastIndex(addr.s, ".")+1:]}, true
@@ -355,57 +333,10 @@ func (c *Ctx) pdfLengths() {
 		c.undecided("W-PDFLENGTHS", fname, "the two lengths are byte counts of what was written", f.Pos(), "no byte-counting writer (a type whose Write adds the count returned by the underlying Write to a field) exists in package type1, so the lengths WritePDF reports cannot be tied to the number of bytes it wrote (lengths found by searching the output are wrong as soon as a font string contains the searched text)")
 		return
 	}
-	newE := c.fn("type1", "newEExecWriter")
-	var tmplCalls []*ssa.Call
-	var newCall, closeCall *ssa.Call
-	eachInstr(f, func(ins ssa.Instruction) {
-		call, ok := ins.(*ssa.Call)
-		if !ok {
-			return
-		}
-		sc := call.Common().StaticCallee()
-		if sc == nil {
-			return
-		}
-		switch {
-		case calleeName(sc) == "(*text/template.Template).ExecuteTemplate":
-			tmplCalls = append(tmplCalls, call)
-		case sc == newE:
-			newCall = call
-		case sc.Name() == "Close" && sc.Signature.Recv() != nil:
-			closeCall = call
-		}
-	})
-	var loads []*ssa.UnOp
-	eachInstr(f, func(ins ssa.Instruction) {
-		if ld, ok := ins.(*ssa.UnOp); ok && ld.Op == token.MUL && isFieldAddr(ld.X, cwT, cwField) {
-			loads = append(loads, ld)
-		}
-	})
-	ok1, ok2 := false, false
-	why := ""
-	if len(tmplCalls) == 2 && newCall != nil && closeCall != nil && len(loads) >= 2 {
-		secA := tmplCalls[0]
-		if name, _ := constString(secA.Common().Args[2]); name != "SectionA" {
-			why = "the first template executed is not SectionA"
-		}
-		for _, ld := range loads {
-			if dominatesInstr(secA, ld) && dominatesInstr(ld, newCall) {
-				ok1 = true
-			}
-			if dominatesInstr(closeCall, ld) {
-				ok2 = true
-			}
-		}
-		// the eexec writer writes into the same counter
-		if mi, ok := newCall.Common().Args[0].(*ssa.MakeInterface); !ok || !pointsTo(mi.X.Type(), cwT) {
-			why = "the cipher writer does not write through the byte counter"
-		}
-	} else {
-		why = "expected two template executions, one cipher writer, its Close and two reads of the byte counter"
-	}
-	c.check(ok1 && ok2 && why == "", "W-PDFLENGTHS", fname, "length1 = bytes counted after the clear text and before the cipher lead bytes; length2 = bytes counted after Close minus length1", f.Pos(), "counter read between SectionA and newEExecWriter, and after Close",
-		fmt.Sprintf("PDF lengths: first counter read placed correctly: %v, second after Close: %v %s", ok1, ok2, why))
+	// WritePDF evaluated with writers as objects (ext_x9.go): what the two results count
+	okLen, why := c.pdfLengthsEvalX9(f, cwT, cwField)
+	c.check(okLen, "W-PDFLENGTHS", fname, "length1 = bytes counted after the clear text and before the cipher lead bytes; length2 = bytes counted after Close minus length1", f.Pos(), "counter read between SectionA and newEExecWriter, and after Close",
+		"PDF lengths: "+why)
 	// the counter is written nowhere else
 	okCount := true
 	for _, fn := range c.modFuncs {
